@@ -419,6 +419,11 @@ def on_positive_closed_walk(nvars, all_edges, mine):
     return False
 
 
+def majorization_divergence_domain(c):
+    """classifier: ConstrainedMajorizationLayout with setAvoidOverlaps and a FixedRelativeConstraint(fixedPosition=true)"""
+    return c['mode'] == 3 and c['overlap'] == 1 and any(cc['code'] == 7 and cc['fixedpos'] for cc in c['ccs'])
+
+
 def refs_of(cc):
     if cc['code'] == 2:
         return [cc['la'], cc['ra']]
@@ -514,6 +519,9 @@ def layouts(res, rng, ncases, cpp, ml, corpus=True):
             # classifier: the char* that only IncSolver::satisfy's final scan throws (solve_VPSC.cpp:326), out of the majorization layout
             if r['EXC'].startswith('char*') and c['mode'] == 3:
                 v['fingerprint'] = 'vpsc_satisfy_throws_charptr'
+            # classifier: coordinates run away (assertion on the rectangle width fails at huge coordinates) in the combination below
+            if majorization_divergence_domain(c) and 'fabs(width()-w)<1e-9' in r['EXC']:
+                v['fingerprint'] = 'majorization_fixedrelative_overlap_divergence'
             viols.append(v)
             continue
         bad_num = [j for j, q in enumerate(r['R']) if not all(math.isfinite(x) for x in q)]
@@ -523,9 +531,18 @@ def layouts(res, rng, ncases, cpp, ml, corpus=True):
             continue
         size_bad = [j for j, q in enumerate(r['R']) if abs(q[2] - (c['rects'][j][1] - c['rects'][j][0]) / 16.0) > 1e-9 or
                     abs(q[3] - (c['rects'][j][3] - c['rects'][j][2]) / 16.0) > 1e-9]
+        huge = max(abs(x) for q in r['R'] for x in q[:2]) > 1e6
         if size_bad:
-            viols.append({'what': 'rectangle size changed by the layout', 'nodes': size_bad, 'result': r['R'], 'case': c,
-                          'replay': 'echo "%s" | <c07_cc harness> layout' % lines[i]})
+            v = {'what': 'rectangle size changed by the layout', 'nodes': size_bad, 'result': r['R'], 'case': c,
+                 'replay': 'echo "%s" | <c07_cc harness> layout' % lines[i]}
+            if huge and majorization_divergence_domain(c):
+                v['fingerprint'] = 'majorization_fixedrelative_overlap_divergence'
+            viols.append(v)
+            continue
+        if huge and majorization_divergence_domain(c):
+            viols.append({'what': 'coordinates diverge (|coordinate| > 1e6 from inputs within [0,200]); constraints cannot hold to 1e-4 there',
+                          'result': r['R'], 'case': c, 'replay': 'echo "%s" | <c07_cc harness> layout' % lines[i],
+                          'fingerprint': 'majorization_fixedrelative_overlap_divergence'})
             continue
         if max(abs(x) for q in r['R'] for x in q[:2]) > 2.0 ** 40:
             stats['unchecked_huge'] += 1
@@ -582,8 +599,9 @@ def layouts(res, rng, ncases, cpp, ml, corpus=True):
                                 v['fingerprint'] = 'makefeasible_rejects_satisfiable_equality:' + \
                                                    ('cycle' if c.get('eqcycle', [None, None])[d] else 'nocycle')
                             viols.append(v)
-                    if cc['code'] == 8 and j in r['PG'] and c['mode'] != 2:
-                        # soft page boundary: every rectangle inside the *actual* margins the constraint reports
+                    if cc['code'] == 8 and j in r['PG'] and c['mode'] in (0, 1):
+                        # soft page boundary (not one of the property's listed types; extra check, ConstrainedFDLayout::run only, where the
+                        # last write is a projection): every rectangle inside the *actual* margins the constraint reports
                         xl, xr, yl, yr = r['PG'][j]
                         for s, hx, hy in cc['sh']:
                             if s < c['n']:
